@@ -363,6 +363,27 @@ func c01MethodCases() []*h.Case {
 	return out
 }
 
+// c01SharedTypeCases: two packages of one invocation, each with fallible injectors returning the same struct / array /
+// named-func types by value, which the declaring package and the importing package spell differently (T vs lib.T vs an
+// aliased import): every generated file must compile in its own package.
+func c01SharedTypeCases() []*h.Case {
+	var out []*h.Case
+	for variant := 0; variant < 2; variant++ {
+		q, imp := "lib.", "\t\"{{ROOT}}/lib\"\n"
+		if variant == 1 {
+			q, imp = "store.", "\tstore \"{{ROOT}}/lib\"\n"
+		}
+		files := map[string]string{
+			"lib/defs.go": "package lib\n\ntype T struct{ N int }\n\ntype Arr [2]int\n\ntype Gen[X any] struct{ V X }\n\nfunc NewT() (T, error) { return T{1}, nil }\n\nfunc NewArr() (Arr, func(), error) { return Arr{}, func() {}, nil }\n\nfunc NewGen() (Gen[T], error) { return Gen[T]{}, nil }\n",
+			"lib/wire.go": "//go:build wireinject\n// +build wireinject\n\npackage lib\n\nimport \"github.com/google/wire\"\n\nfunc InitT() (T, error) {\n\tpanic(wire.Build(NewT))\n}\n\nfunc InitArr() (Arr, func(), error) {\n\tpanic(wire.Build(NewArr))\n}\n\nfunc InitGen() (Gen[T], error) {\n\tpanic(wire.Build(NewGen))\n}\n",
+			"wire.go": "//go:build wireinject\n// +build wireinject\n\npackage p\n\nimport (\n\t\"github.com/google/wire\"\n" + imp + ")\n\nfunc InitT() (" + q + "T, error) {\n\tpanic(wire.Build(" + q + "NewT))\n}\n\nfunc InitArr() (" + q + "Arr, func(), error) {\n\tpanic(wire.Build(" + q + "NewArr))\n}\n\nfunc InitGen() (" + q + "Gen[" + q + "T], error) {\n\tpanic(wire.Build(" + q + "NewGen))\n}\n",
+			"driver.go": "package p\n\nimport " + strings.TrimSpace(strings.TrimPrefix(imp, "\t")) + "\n\nvar _ func() (" + q + "T, error) = InitT\n",
+		}
+		out = append(out, &h.Case{ID: fmt.Sprintf("C01/shared-result-types-across-packages/variant=%d", variant), Files: files, Build: true, ExtraBuild: []string{"lib"}, Judge: judgeC01(true)})
+	}
+	return out
+}
+
 func checkC01(c *h.Check) {
 	thorough := c.Tier == "thorough"
 	var cases []*h.Case
@@ -400,6 +421,9 @@ func checkC01(c *h.Check) {
 		add(cs)
 	}
 	for _, cs := range c01AliasCases() {
+		add(cs)
+	}
+	for _, cs := range c01SharedTypeCases() {
 		add(cs)
 	}
 	results := c.JudgeAll(cases)
